@@ -337,6 +337,20 @@ def bounded(b):
         b.case("container/nested_iteration", pairs == [(id(x), id(y)) for x in sc.parts for y in sc.parts], {"score": sname},
                "nested iteration visits %d pairs of %d" % (len(pairs), n * n))
         b.case("container/len_index", len(sc) == len(sc.parts) and all(sc[i] is sc.parts[i] for i in range(n)), {"score": sname}, "len/index")
+    # the analyses on a LARGE input (1 700 notes, many equal onsets): orderings that depend on object addresses or unstable sorts only show there
+    import partitura as pt
+    big = os.path.join(os.path.dirname(pt.__file__), "..", "tests", "data", "musicxml", "test_part_group.xml")
+    if os.path.exists(big):
+        bsc = pt.load_musicxml(big)
+        for name, _, _, call in eps:
+            if name not in ("estimate_voices", "estimate_spelling", "estimate_key"):
+                continue
+            case = {"entry": name, "score": "file:test_part_group.xml", "arg": "Score", "calls": 3}
+            try:
+                rs = [_res_repr(call(bsc, bsc)) for _ in range(3)]
+            except Exception:
+                continue
+            b.case("readonly/second_call_same_result", rs[1] == rs[0] and rs[2] == rs[0], case, "calling again gives a different result")
     for perf in G.all_performances(b.tier):
         case = {"performance": perf.id}
         before = G.fingerprint(perf)
